@@ -418,10 +418,18 @@ class Facts:
 
     def add(self, data):
         for rec in data.get("functions", []):
-            if rec["key"] in self.functions:
-                continue
+            k = rec["key"]
+            old = self.functions.get(k)
+            if old is not None:
+                if old.file == rec["file"]:
+                    continue            # the same (header) definition seen from another unit
+                # a different function with the same signature (main, file-local helpers)
+                k = "%s@%s" % (k, rec["file"])
+                if k in self.functions:
+                    continue
             fn = Fn(rec)
-            self.functions[rec["key"]] = fn
+            fn.ukey = k
+            self.functions[k] = fn
             self.by_qn.setdefault(fn.qn, []).append(fn)
         for rec in data.get("classes", []):
             self.class_insts.setdefault(rec["qnt"], rec)
@@ -442,11 +450,14 @@ class Facts:
             r = self.by_qn.get("GNU_gama::" + qn)
         return r or []
 
-    def fn(self, qn, nparams=None):
-        """Exactly one function by stripped qualified name (optionally by arity); exit 2 if absent."""
+    def fn(self, qn, nparams=None, file=None):
+        """Exactly one function by stripped qualified name (optionally by arity / defining file);
+        exit 2 if absent."""
         c = self.fns(qn)
         if nparams is not None:
             c = [f for f in c if len(f.params) == nparams]
+        if file is not None:
+            c = [f for f in c if f.file == file]
         if not c:
             raise AnalysisBroken("anchor function %s%s not found in the analysed sources"
                                  % (qn, "" if nparams is None else "/%d" % nparams))
